@@ -213,6 +213,10 @@ impl<F: Float, D: Distance<F>, N: NearestNeighbour>
             let n = &mut points[points_index];
             self.set_core_distance(n, &neighbors, observations);
             if n.core_distance.is_some() {
+                // the start sample of a new cluster is listed first, with an undefined reachability distance,
+                // and must not end up among its own seeds
+                processed.insert(n.index);
+                result.orderings.push(n.clone());
                 seeds.clear();
                 // Here we get a list of "density reachable" samples that haven't been processed
                 // and sort them by reachability so we can process the closest ones first.
